@@ -59,6 +59,8 @@ func readReplayForReplication(ReplayC <-chan *raftconn.Commit, client metaclient
 		if commit == nil {
 			continue
 		}
+		// entries committed after the restart are applied only when this replay is through (also if it panics)
+		defer commit.ReplayApplied()
 		database := commit.Database
 		ptId := commit.PtId
 		logger.GetLogger().Info("start read replay for replication", zap.String("database", database), zap.Uint32("ptId", ptId))
@@ -75,6 +77,8 @@ func readReplayForReplication(ReplayC <-chan *raftconn.Commit, client metaclient
 }
 
 func readCommitFromRaft(node *raftconn.RaftNode, client metaclient.MetaClient, storage StorageService) {
+	// the restart replay re-applies entries that precede everything raft publishes from now on
+	node.WaitReplayApplied()
 	commitC := node.GetCommitC()
 	for commit := range commitC {
 		if commit == nil {
